@@ -12,6 +12,7 @@ import (
 	"crypto/tls"
 	"flag"
 	"fmt"
+	"math/big"
 	"os"
 	"path/filepath"
 	"reflect"
@@ -22,7 +23,6 @@ import (
 	kmip "github.com/smira/go-kmip"
 	"kvharness/internal/gentab"
 )
-
 
 func die(f string, a ...interface{}) {
 	fmt.Fprintf(os.Stderr, "kvreflect: "+f+"\n", a...)
@@ -70,7 +70,8 @@ func resolveFieldTag(name string) (uint32, bool) {
 	}
 	b := buf.Bytes()
 	if len(b) < 24 {
-		return 0, len(b) == 8 // a field under the any-tag marker is not emitted at all
+		// a field under the any-tag marker is not emitted at all: that is how the marker is observed
+		return 0xffffff, len(b) == 8
 	}
 	return uint32(b[8])<<16 | uint32(b[9])<<8 | uint32(b[10]), true
 }
@@ -110,6 +111,37 @@ func leanStr(s string) string {
 	s = strings.ReplaceAll(s, "\\", "\\\\")
 	s = strings.ReplaceAll(s, "\"", "\\\"")
 	return "\"" + s + "\""
+}
+
+// nameKey is the big-endian base-256 number of the name's bytes: Lean compares these instead of strings
+// (kernel evaluation of string equality is slow); GenC18 proves the K tables equal the string tables mapped by the same function
+func nameKeyInt(s string) *big.Int {
+	n := new(big.Int)
+	for i := 0; i < len(s); i++ {
+		n.Mul(n, big.NewInt(256))
+		n.Add(n, big.NewInt(int64(s[i])))
+	}
+	return n
+}
+
+type keyRow struct {
+	key *big.Int
+	num uint64
+}
+
+// renderKeyRows sorts by (number, key) and renders
+func renderKeyRows(kr []keyRow) string {
+	sort.SliceStable(kr, func(i, j int) bool {
+		if kr[i].num != kr[j].num {
+			return kr[i].num < kr[j].num
+		}
+		return kr[i].key.Cmp(kr[j].key) < 0
+	})
+	var rows []string
+	for _, r := range kr {
+		rows = append(rows, fmt.Sprintf("  (%s, 0x%x)", r.key.String(), r.num))
+	}
+	return strings.Join(rows, ",\n")
 }
 
 func leanBytes(s string) string {
@@ -461,6 +493,15 @@ func main() {
 		}
 		c.WriteString(strings.Join(rows, ",\n"))
 		c.WriteString("\n]\n\n")
+		fmt.Fprintf(&c, "/-- (name as a number, value), sorted by (value, name key) -/\ndef %sK : List (Nat × Nat) := [\n", grp.def)
+		var kr []keyRow
+		for _, k := range gentab.Consts {
+			if k.Typ == grp.typ {
+				kr = append(kr, keyRow{nameKeyInt(k.Name), k.Num})
+			}
+		}
+		c.WriteString(renderKeyRows(kr))
+		c.WriteString("\n]\n\n")
 	}
 	c.WriteString("def stringConsts : List (String × String) := [\n")
 	rows = nil
@@ -475,20 +516,22 @@ func main() {
 	c.WriteString("/-- annotation name ↦ number, observed by encoding a struct annotated with the name (struct-tag path) -/\ndef tagMapStruct : List (String × Nat) := [\n")
 	rows = nil
 	var rows2 []string
+	var rowsK, rows2K []keyRow
 	for _, kv := range gentab.MapKeys["tagMap"] {
 		k := strings.SplitN(kv, "=", 2)[0]
 		if n, ok := resolveTag(k); ok {
 			rows = append(rows, fmt.Sprintf("  (%s, 0x%06x)", leanStr(k), n))
+			rowsK = append(rowsK, keyRow{nameKeyInt(k), uint64(n)})
 		}
-		if k != "-" {
-			if n, ok := resolveFieldTag(k); ok {
-				rows2 = append(rows2, fmt.Sprintf("  (%s, 0x%06x)", leanStr(k), n))
-			}
+		if n, ok := resolveFieldTag(k); ok {
+			rows2 = append(rows2, fmt.Sprintf("  (%s, 0x%06x)", leanStr(k), n))
+			rows2K = append(rows2K, keyRow{nameKeyInt(k), uint64(n)})
 		}
 	}
 	c.WriteString(strings.Join(rows, ",\n"))
 	c.WriteString("\n]\n\n/-- the same through the field-annotation path -/\ndef tagMapField : List (String × Nat) := [\n")
 	c.WriteString(strings.Join(rows2, ",\n"))
+	c.WriteString("\n]\n\ndef tagMapStructK : List (Nat × Nat) := [\n" + renderKeyRows(rowsK) + "\n]\n\ndef tagMapFieldK : List (Nat × Nat) := [\n" + renderKeyRows(rows2K))
 	c.WriteString("\n]\n\n/-- map-literal entries as written in the source: key ↦ constant identifier -/\ndef tagMapSource : List (String × String) := [\n")
 	rows = nil
 	for _, kv := range gentab.MapKeys["tagMap"] {
